@@ -37,7 +37,7 @@ TECHNIQUE = (
 
 META = {
     "explanation": (
-        "Six rules, each a structural necessary condition of the statement; the same extractors run on MyST's code and on the "
+        "Seven rules, each a structural necessary condition of the statement; the same extractors run on MyST's code and on the "
         "parsed source of mdit_py_plugins/anchors/index.py (the code behind the myst-anchors command), and values - never text - "
         "are compared. "
         "R1 uniquifier: (d) every value compute_unique_slug can return is a name that crossed a `name not in taken` edge on every "
@@ -92,7 +92,13 @@ META = {
         "R6 in the function that resolves '#anchor' links from the slug table, any table consulted earlier is filled - in place or "
         "in the helper that returns it - only under docutils' explicit flag (value of nametypes.items() or nametypes[name]), and "
         "never with an entry computed from a record of the slug table (a cached slug hit): "
-        "implicit section names, which derive from the same titles as the slugs, never pre-empt a slug."
+        "implicit section names, which derive from the same titles as the slugs, never pre-empt a slug. "
+        "R7 the plugin behind myst-anchors (re-verified on its parsed source) calls its slug function on the joined title as it is, "
+        "with no step of its own in between; therefore the function that cli.py installs as slug_func (or the plugin's slugify "
+        "when it installs none) contains, in its own str/regex pipeline, every step of the documented rule as transcribed in the "
+        "plugin's slugify - lower(), replace(' ', '-') and a regex substitution. A step that is moved out of that function into "
+        "its caller in the renderer (compute_unique_slug folding the case before calling the default) leaves rendering intact and "
+        "silently changes what myst-anchors prints; R7 is decided without looking at how compute_unique_slug selects its function."
     ),
     "not_decided": (
         "actual slug values for concrete titles and per-document equality of rendered anchors with the CLI output (needs the "
@@ -3438,7 +3444,93 @@ def r6_slug_preemption(corpus: Corpus, rep: Report, tier: str):
     rep.expect_min("C10.R6", 1, "the explicit-target branch that precedes the slug branch in ResolveAnchorIds.apply")
 
 
-RULES = [r1_uniquifier, r2_sibling_agreement, r3_depth, r4_foreign_callable, r5_record_layout, r6_slug_preemption]
+def _cli_slug_function(corpus: Corpus, sib: Module):
+    """(cli module, print_anchors, the `.use(anchors_plugin ...)` call, the function the plugin slugs with, is it the plugin's own)."""
+    cli, pa, _fam, _uf, use = _cli_use(corpus)
+    sf_arg = kwarg(use, "slug_func")
+    if sf_arg is None:
+        return cli, pa, use, _sibling_default_slug_func(sib), True
+    d_ = dotted(sf_arg)
+    f = corpus.find_function(cli.resolve(d_)) if d_ else None
+    if f is None:
+        raise Unsupported(f"{cli.site(sf_arg)}: slug function given to anchors_plugin by the CLI not understood: {short(sf_arg, 40)}")
+    return cli, pa, use, f, False
+
+
+def _plugin_slugs_raw_title(sib: Module) -> FunctionInfo:
+    """Re-verify on the plugin's source that its slug function receives the joined title itself (nothing folds it before)."""
+    sfps = [(f, title_fingerprint(f)) for f in sib.functions.values() if not f.is_lambda]
+    sfps = [(f, x) for f, x in sfps if x is not None]
+    if len(sfps) != 1:
+        raise Unsupported(f"{SIBLING}: expected one title join, found {len(sfps)}")
+    sf, sfp = sfps[0]
+    tname = sfp["title_name"]
+    if tname is None:
+        raise Unsupported(f"{SIBLING}: the joined title is not bound to a name")
+    join_stmt = parent(sfp["title_expr"]) if sfp["title_expr"] is not None else None
+    for d in _assigns_to(sf, tname):
+        if d is join_stmt:
+            continue
+        if sfp["title_expr"] is None and ((isinstance(d, ast.Assign) and isinstance(d.value, ast.Constant) and d.value.value == "") or (isinstance(d, ast.AugAssign) and enclosing_loop(d, sf) is sfp["join"])):
+            continue
+        raise Unsupported(f"{SIBLING}: the plugin post-processes the title before slugging (`{short(d, 50)}`)")
+    outer: set[str] = set()
+    f_ = sf
+    while f_ is not None:
+        outer |= set(f_.params)
+        f_ = f_.parent_func
+    loads = [n for n in walk_local(sf.node) if isinstance(n, ast.Name) and n.id == tname and isinstance(n.ctx, ast.Load)]
+    if not loads:
+        raise Unsupported(f"{SIBLING}: the joined title is never used")
+    for n in loads:
+        c = parent(n)
+        if not (isinstance(c, ast.Call) and isinstance(c.func, ast.Name) and c.func.id in outer and len(c.args) == 1 and not c.keywords and c.args[0] is n):
+            raise Unsupported(f"{SIBLING}: the plugin no longer calls its slug function on the joined title itself: {short(c, 50)}")
+    return sf
+
+
+@rule("C10.R7")
+def r7_cli_slug_function_complete(corpus: Corpus, rep: Report, tier: str):
+    rep.rule("C10.R7", "the plugin behind myst-anchors calls its slug function on the raw joined title, so the function the CLI installs performs every step of the documented rule itself (lower-case, spaces to hyphens, punctuation removal)")
+    sib = _sibling(corpus, rep)
+    sf = _plugin_slugs_raw_title(sib)
+    rep.saw_function(sf.fq)
+    oracle = _sibling_default_slug_func(sib)
+    cli, pa, use, cfi, own = _cli_slug_function(corpus, sib)
+    rep.saw_function(cfi.fq)
+    rep.saw_call(cli.site(use))
+    # the documented rule as transcribed in the plugin's own slugify; its strip() is not part of the rule (R2, F8)
+    steps = [o for o in slug_pipeline(oracle) if o[0] != "strip"]
+    str_steps = [o for o in steps if o[0] != "re.sub"]
+    if not any(o[0] == "lower" for o in str_steps) or not any(o[0] == "replace" for o in str_steps) or len(steps) - len(str_steps) != 1:
+        raise Unsupported(f"{SIBLING}: {oracle.qualname} is no longer lower-case / spaces to hyphens / one regex substitution")
+    mine = slug_pipeline(cfi)
+    vals = [_op_val(o) for o in mine]
+    site = cfi.site() if not own else cli.site(use)
+    shown = " -> ".join(_op_text(x) for x in mine) or "nothing"
+    for o in str_steps:
+        k = f"{pa.fq}|the slug function of myst-anchors applies {_op_text(o)} itself"
+        if _op_val(o) in vals:
+            rep.ok("C10.R7", k, site, f"{cfi.qualname}: {shown}")
+        else:
+            rep.violation(
+                "C10.R7",
+                k,
+                site,
+                f"myst-anchors installs {cfi.qualname} as the plugin's slug function, and the plugin calls it on the joined title as it is ({SIBLING}:{sf.qualname}); "
+                f"{cfi.qualname} applies {shown}: `{_op_text(o)}` of the documented rule is missing, so the printed anchors are not the GitHub slugs "
+                "(and differ from the rendered ones if a caller in the renderer makes up for the step): '# My Title' prints 'My-Title'",
+                [f"{cli.site(use)} {short(use, 70)}", f"{SIBLING}:{sf.qualname} slug_func(title)"],
+            )
+    k = f"{pa.fq}|the slug function of myst-anchors removes punctuation itself"
+    if any(o[0] == "re.sub" for o in mine):
+        rep.ok("C10.R7", k, site, "regex substitution present (its pattern, flags and replacement: R2)")
+    else:
+        rep.violation("C10.R7", k, site, f"myst-anchors installs {cfi.qualname} as the plugin's slug function; it applies {shown}: no substitution removes punctuation")
+    rep.expect_min("C10.R7", 3, "lower-case, spaces to hyphens, punctuation removal")
+
+
+RULES = [r1_uniquifier, r2_sibling_agreement, r3_depth, r4_foreign_callable, r5_record_layout, r6_slug_preemption, r7_cli_slug_function_complete]
 
 
 # ---------------------------------------------------------------------------
@@ -3635,6 +3727,30 @@ def mutants(corpus: Corpus):
     if rpl:
         c = rpl[0][2]
         out.append(Mutant("c10-pipeline-replace-dropped", "C10.R2", dfi.module.rel, splice(dsrc, c, segment(dsrc, c.func.value)), expect="missing replace"))
+    # ---- R7: a step of the rule moved out of the function that myst-anchors hands to the plugin
+    try:
+        _c7, _p7, _u7, cfi7, own7 = _cli_slug_function(corpus, corpus.sibling(SIBLING))
+        pipe7 = [] if own7 else slug_pipeline(cfi7)
+        src7 = cfi7.module.src
+        for nm7, mid7 in (("lower", "c10-cli-slug-function-keeps-case"), ("replace", "c10-cli-slug-function-keeps-spaces")):
+            hit7 = [o for o in pipe7 if o[0] == nm7]
+            if not hit7:
+                out.append((mid7, f"the slug function of myst-anchors has no {nm7}() step on this tree"))
+                continue
+            c7 = hit7[0][2]
+            out.append(Mutant(mid7, "C10.R7", cfi7.module.rel, splice(src7, c7, segment(src7, c7.func.value)), expect=f"applies {nm7}("))
+        low7 = [o for o in pipe7 if o[0] == "lower"]
+        calls7 = [c_ for c_ in sel["calls"] if len(c_.args) == 1]
+        if low7 and calls7 and cfi7.module is base and cfi7.fq == dfi.fq and low7[0][2].end_lineno < calls7[0].lineno:
+            # the seeded cooperating pair: the renderer folds the case at its own call, the default no longer does; the CLI is not adapted
+            a7 = calls7[0].args[0]
+            s7 = splice(src, a7, f"({segment(src, a7)}).lower()")
+            s7 = splice(s7, low7[0][2], segment(src, low7[0][2].func.value))  # earlier in the file: offsets before it are unchanged
+            out.append(Mutant("c10-lower-moved-to-the-renderer-call", "C10.R7", base.rel, s7, expect="applies lower("))
+        else:
+            out.append(("c10-lower-moved-to-the-renderer-call", "default slug function is not the CLI's / not defined before compute_unique_slug"))
+    except Unsupported as e7:
+        out.append(("c10-cli-slug-function-keeps-case", f"not computable: {e7}"))
     fp = title_fingerprint(cus, corpus)
     if fp is not None:
         tn = fp["types_node"]
